@@ -1641,8 +1641,10 @@ where
                 let incarnation = Incarnation::max(incarnation, self.incarnation);
 
                 // We need to rejoin the cluster when this situation happens
-                // because it will be impossible to refute suspicion
-                if incarnation == Incarnation::MAX {
+                // because it will be impossible to refute suspicion. A
+                // suspicion about an old incarnation has been refuted
+                // already: there's nothing to do about it even at the max
+                if increase_incarnation && incarnation == Incarnation::MAX {
                     if !self.attempt_rejoin(&mut runtime)? {
                         #[cfg(feature = "tracing")]
                         tracing::debug!("Inactive: reached Incarnation::MAX",);
